@@ -6,6 +6,8 @@ decomposition of `handleDataMsg` into its suppression decision (`dropDecision`),
 -/
 import OsmoVerif.Lemmas.World
 import OsmoVerif.Lemmas.Trxd
+import OsmoVerif.Lemmas.Hopping
+import OsmoVerif.Lemmas.WorldWiring
 import OsmoVerif.Spec.WorldRouting
 
 namespace OsmoVerif.World
@@ -2375,6 +2377,180 @@ theorem ctrlCmdHandler_simWF (req : List Str) (p : Patch) (rc : Option Int) (t :
     repeat' split at h
     all_goals cases h
     all_goals (simp only [SimWF, Spec.DropWF, Spec.ThrNonneg, Patch.apply]; omega)
+  rw [if_neg c9] at h
+  cases h
+end
+
+/-! ### DATA ports of a built world -/
+
+/-- (remote address, DATA port) of a transceiver -/
+def portKey (t : Trx) : Nat × Nat := (t.addr, t.basePort + 2 * t.childIdx + 2)
+
+theorem map_modify_of_inv {α β : Type} (g : α → β) (f : α → α) (hf : ∀ x, g (f x) = g x)
+    (l : List α) (i : Nat) : (l.modify i f).map g = l.map g := by
+  apply List.ext_getElem?
+  intro k
+  simp only [List.getElem?_map, List.getElem?_modify]
+  cases l[k]? with
+  | none => rfl
+  | some x =>
+    simp only [Option.map_some]
+    split <;> simp [hf]
+
+theorem appendTrx_keys {ts ts' : List Trx} {a p c : Nat} {m : Bool}
+    (h : appendTrx ts a p c m = .ok ts') : ts'.map portKey = ts.map portKey ++ [Spec.defKey (a, p, c)] := by
+  obtain ⟨_, _, rfl⟩ := WorldPower.appendTrx_ok h
+  simp only [List.map_append, List.map_cons, List.map_nil, portKey, Spec.defKey]
+
+theorem appendChildTrx_keys {ts ts' : List Trx} {a p c : Nat}
+    (h : appendChildTrx ts a p c = .ok ts') : ts'.map portKey = ts.map portKey ++ [Spec.defKey (a, p, c)] := by
+  unfold appendChildTrx at h
+  split at h
+  · rename_i hc
+    subst hc
+    exact appendTrx_keys h
+  · split at h
+    · cases h
+    · split at h
+      · cases h
+      · cases h
+        rw [map_modify_of_inv portKey (fun t => { t with children := t.children ++ [ts.length] }) (fun x => rfl)]
+        simp only [List.map_append, List.map_cons, List.map_nil, portKey, Spec.defKey]
+
+theorem foldlM_keys {extra : List (Nat × Nat × Nat)} {ts ts' : List Trx}
+    (h : extra.foldlM (fun ts (x : Nat × Nat × Nat) => appendChildTrx ts x.1 x.2.1 x.2.2) ts = .ok ts') :
+    ts'.map portKey = ts.map portKey ++ extra.map Spec.defKey := by
+  induction extra generalizing ts with
+  | nil =>
+    simp only [List.foldlM_nil, pure, Except.pure, Except.ok.injEq] at h
+    subst h; simp
+  | cons x xs ih =>
+    simp only [List.foldlM_cons, bind, Except.bind] at h
+    split at h
+    · cases h
+    next ts1 h1 =>
+      rw [ih h, appendChildTrx_keys h1]
+      simp only [List.map_cons, List.append_assoc, List.cons_append, List.nil_append]
+
+/-- the (address, DATA port) pairs of a built world are those of BTS, MS and the `--trx`
+definitions, in order -/
+theorem build_keys {seed : Nat} {extra : List (Nat × Nat × Nat)} {w : World}
+    (h : build seed extra = .ok w) :
+    w.trxs.map portKey = ([(addrBts, btsPort, 0), (addrBb, bbPort, 0)] ++ extra).map Spec.defKey := by
+  unfold build at h
+  simp only [bind, Except.bind, pure, Except.pure] at h
+  split at h
+  · cases h
+  next ts0 h0 =>
+    split at h
+    · cases h
+    next ts1 h1 =>
+      split at h
+      · cases h
+      next ts2 h2 =>
+        cases h
+        rw [foldlM_keys h2, appendTrx_keys h1, appendTrx_keys h0]
+        simp only [List.map_nil, List.nil_append, List.map_cons, List.cons_append]
+
+theorem build_distinctDataPorts {seed : Nat} {extra : List (Nat × Nat × Nat)} {w : World}
+    (h : build seed extra = .ok w) (hno : Spec.NoPortOverlap extra) : Spec.DistinctDataPorts w := by
+  unfold Spec.DistinctDataPorts
+  have := build_keys h
+  unfold portKey at this
+  rw [this]
+  exact hno
+
+/-! ### `FreqOk` for hopping parameters built by `HoppingParams.__init__` -/
+
+/-- `resolve` never raises on an object built by `__init__` (C07 `py_resolve_total`, re-derived here
+from `Lemmas/Hopping.lean` to keep `Lemmas` independent of `Props`) -/
+theorem resolve_total (hsn maio : Int) (ma : List (Int × Int)) (hp : Hopping.HoppingParams (Int × Int))
+    (h : Hopping.pyInit hsn maio ma = .ok hp) (fn : Nat) : ∃ v, hp.resolve fn = .ok v := by
+  obtain ⟨hn, h0, h64, e1, e2, e3, _⟩ := Hopping.pyInit_inv hsn maio ma hp h
+  obtain ⟨k, hk⟩ := Int.eq_ofNat_of_zero_le h0
+  subst hk
+  obtain ⟨hsn', maio', ma', pnm⟩ := hp
+  simp only at e1 e2 e3
+  subst e1 e2 e3
+  obtain ⟨v, _, hv⟩ := Hopping.py_resolve_total_aux k maio' ma' pnm fn (by omega) hn (by decide)
+  exact ⟨v, hv⟩
+
+/-- in a world whose hopping parameters all come from `HoppingParams.__init__`, every
+transceiver's receive and transmit frequency resolve in every frame -/
+theorem freqOk_of_sane (w : World) (h : Spec.FhSane w) (fn : Nat) : Spec.FreqOk w fn := by
+  intro k hk
+  have hk' : w.trxs[k]? = some w.trxs[k] := List.getElem?_eq_getElem hk
+  have hm := getElem?_mem _ _ _ hk'
+  unfold Spec.rxFreqAt Spec.txFreqAt
+  rw [hk']
+  dsimp only
+  unfold Hopping.Trx.getRxFreq Hopping.Trx.getTxFreq Trx.hop
+  dsimp only
+  cases hf : (w.trxs[k]).fh with
+  | none => exact ⟨rfl, rfl⟩
+  | some hp =>
+    obtain ⟨hsn, maio, ma, hi⟩ := h _ hm hp hf
+    obtain ⟨v, hv⟩ := resolve_total hsn maio ma hp hi fn
+    simp only [hv]
+    exact ⟨rfl, rfl⟩
+section
+open OsmoVerif.PyStr
+/-- the only hopping parameters a TRXC command installs are results of `HoppingParams.__init__` -/
+theorem commonCmd_fh (trx : Trx) (req : List Str) (hp : Hopping.HoppingParams (Int × Int)) (rc : Int)
+    (h : commonCmd trx req = .ok (.patch (.fh hp) rc)) :
+    ∃ hsn maio ma, Hopping.pyInit hsn maio ma = .ok hp := by
+  unfold commonCmd at h
+  simp only [bind, Except.bind, pure, Except.pure] at h
+  by_cases c0 : verifyCmd req "POWERON" 0 = true
+  · rw [if_pos c0] at h
+    repeat' split at h
+    all_goals cases h
+  rw [if_neg c0] at h
+  by_cases c1 : verifyCmd req "POWEROFF" 0 = true
+  · rw [if_pos c1] at h
+    repeat' split at h
+    all_goals cases h
+  rw [if_neg c1] at h
+  by_cases c2 : verifyCmd req "RXTUNE" 1 = true
+  · rw [if_pos c2] at h
+    repeat' split at h
+    all_goals cases h
+  rw [if_neg c2] at h
+  by_cases c3 : verifyCmd req "TXTUNE" 1 = true
+  · rw [if_pos c3] at h
+    repeat' split at h
+    all_goals cases h
+  rw [if_neg c3] at h
+  by_cases c4 : verifyCmd req "MEASURE" 1 = true
+  · rw [if_pos c4] at h
+    repeat' split at h
+    all_goals cases h
+  rw [if_neg c4] at h
+  by_cases c5 : verifyCmd req "SETFH" 4 true = true
+  · rw [if_pos c5] at h
+    repeat' split at h
+    all_goals cases h
+    all_goals exact ⟨_, _, _, by assumption⟩
+  rw [if_neg c5] at h
+  by_cases c6 : verifyCmd req "SETFORMAT" 1 = true
+  · rw [if_pos c6] at h
+    repeat' split at h
+    all_goals cases h
+  rw [if_neg c6] at h
+  by_cases c7 : verifyCmd req "SETPOWER" 1 = true
+  · rw [if_pos c7] at h
+    repeat' split at h
+    all_goals cases h
+  rw [if_neg c7] at h
+  by_cases c8 : verifyCmd req "NOMTXPOWER" 0 = true
+  · rw [if_pos c8] at h
+    repeat' split at h
+    all_goals cases h
+  rw [if_neg c8] at h
+  by_cases c9 : verifyCmd req "RFMUTE" 1 = true
+  · rw [if_pos c9] at h
+    repeat' split at h
+    all_goals cases h
   rw [if_neg c9] at h
   cases h
 end
